@@ -492,6 +492,12 @@ func (ts *Terms) Bin(op Op, a, b *Term) *Term {
 		if a == b {
 			return ts.Const(w, 0)
 		}
+		// xor of values with disjoint possibly-set bits is a bit-field assembly: same as or
+		if !ts.Plain && w <= 64 && ts.knownZero(a, 0)|ts.knownZero(b, 0) == mask(w) {
+			if r := ts.orDisjoint(a, b); r != nil {
+				return r
+			}
+		}
 		// (x ^ y) ^ y -> x
 		if a.Op == OpXor {
 			if a.Args[0] == b {
